@@ -83,14 +83,31 @@ C07_SilentClientTimedOut(r) ==
 C07_TimeoutOnlyIfUnechoed(r) ==
   LET h == r.obs IN
   \A d \in Timeouts(h) : \E i \in KAs(h) : i < d /\ ~(\E e \in Echoes(h) : i < e /\ e < d /\ h[e].t < h[d].t /\ ~(\E j \in KAs(h) : i < j /\ j < e))
+\* ... and not before the client has had the time that counts as "surely in time" above: a timeout Disconnect comes no earlier than
+\* P - 1 seconds after the (latest) Keep Alive it is about -- a client about to echo within that time must not find the connection gone
+C07_WindowNotCutShort(r) ==
+  LET h == r.obs IN
+  \A d \in Timeouts(h) : LET before == {i \in KAs(h) : i < d} IN before # {} => h[d].t >= h[MaxOf(before)].t + P - 1
+\* when the TRANSPORT withheld clientbound bytes for a while (r.stalled: nothing, or only k bytes, were accepted from second wstall.at
+\* until wstall.release), a Keep Alive that fell due meanwhile reaches the client as soon as the transport takes bytes again -- not only
+\* when something else happens to be sent
+C07_DueKeepAliveSentWhenWritable(r) ==
+  LET h == r.obs IN
+  (r.stalled /\ Acks(h) # {}) =>
+    LET a == r.wstall.at  rel == r.wstall.release  entry == h[MinOf(Acks(h))].t IN
+    \A m \in 1..8 : (a <= m * P /\ m * P <= rel /\ entry < m * P /\ EndTime(r) > rel + 1
+                       /\ ~(\E i \in KAs(h) : h[i].t < m * P /\ Unechoed(h, i) /\ h[i].t + P >= m * P))
+                        => \E i \in KAs(h) : m * P <= h[i].t /\ h[i].t <= rel + 1
 
 C07Names == {"C07_KeepAliveEveryP", "C07_OneOutstanding", "C07_OnlyWhileWaiting", "C07_EchoingClientSurvives", "C07_EchoingClientRouted",
-             "C07_TransferWhenRoutingCompletes", "C07_TransferDelivered", "C07_SilentClientTimedOut", "C07_TimeoutOnlyIfUnechoed"}
+             "C07_TransferWhenRoutingCompletes", "C07_TransferDelivered", "C07_SilentClientTimedOut", "C07_TimeoutOnlyIfUnechoed", "C07_WindowNotCutShort",
+             "C07_DueKeepAliveSentWhenWritable"}
 C07Clause(c, r) ==
   CASE c = "C07_KeepAliveEveryP" -> C07_KeepAliveEveryP(r) [] c = "C07_OneOutstanding" -> C07_OneOutstanding(r)
     [] c = "C07_OnlyWhileWaiting" -> C07_OnlyWhileWaiting(r) [] c = "C07_EchoingClientSurvives" -> C07_EchoingClientSurvives(r)
     [] c = "C07_EchoingClientRouted" -> C07_EchoingClientRouted(r)
     [] c = "C07_TransferWhenRoutingCompletes" -> C07_TransferWhenRoutingCompletes(r) [] c = "C07_TransferDelivered" -> C07_TransferDelivered(r)
     [] c = "C07_SilentClientTimedOut" -> C07_SilentClientTimedOut(r) [] c = "C07_TimeoutOnlyIfUnechoed" -> C07_TimeoutOnlyIfUnechoed(r)
+    [] c = "C07_WindowNotCutShort" -> C07_WindowNotCutShort(r) [] c = "C07_DueKeepAliveSentWhenWritable" -> C07_DueKeepAliveSentWhenWritable(r)
     [] OTHER -> FALSE
 =============================================================================
